@@ -17,8 +17,8 @@ def base(idle, dwa, wakeup):
 
 def models(tier):
     out = []
-    alpha = [("tick", 1), ("m", 0, "req"), ("m", 0, "dwr"), ("m", 0, "dwa")]
-    dev = {("tick", 1): 0, ("m", 0, "req"): 1, ("m", 0, "dwr"): 1, ("m", 0, "dwa"): 1}
+    alpha = [("tick", 1), ("m", 0, "req"), ("m", 0, "dwr"), ("m", 0, "dwa"), ("mfrag", 0, "req")]
+    dev = {("tick", 1): 0, ("m", 0, "req"): 1, ("m", 0, "dwr"): 1, ("m", 0, "dwa"): 1, ("mfrag", 0, "req"): 1}
     triples = [(3, 2, 1), (2, 2, 2), (5, 1, 3)]
     overrides = [("none", {}), ("idle", {"idle_timeout": 2}), ("dwa", {"dwa_timeout": 1}), ("both", {"idle_timeout": 4, "dwa_timeout": 3})]
     for idle, dwa, wake in triples:
@@ -39,9 +39,68 @@ def models(tier):
     return out
 
 
+# ------------------------------------------------------------------ E4: DWA handling vs the timer check
+def sched_execute(cfgname, prefix):
+    """A ready connection awaiting its DWA; the DWA arrives in time.  Every interleaving (bounded) of the reader thread
+    handling it and the I/O thread's timer check is explored at line granularity, then time passes."""
+    from .. import scenario, scheddfs, simkernel as sk
+    import diameter.node.node as nn
+    import diameter.node.peer as pp
+    sk.install()
+    sk.set_line_points({sk.code_of(pp.PeerConnection, "reset_last_dwa"): None, sk.code_of(pp.PeerConnection, "reset_last_dwr"): None,
+                        sk.code_of(nn.Node, "_check_timers"): None, sk.code_of(nn.Node, "receive_dwa"): None,
+                        sk.code_of(pp.PeerConnection, "dwa_wait_time"): None})
+    cfg = base(3, 3, 1)
+    ch = scheddfs.Chooser(prefix)
+    sc = scenario.Scenario(cfg, chooser=ch, max_socks=1)
+    try:
+        nw = sc.start()
+        mons = [m(sc) for m in MONS]
+        vs = []
+        for ev in (("accept",), ("m", 0, "cer_p0"), ("tick", 1), ("tick", 1), ("tick", 1), ("tick", 1), ("tick", 1)):
+            sc.apply(ev)
+            for m in mons:
+                vs += m.step()
+        s = sc.socks[0]
+        if not any(f.h.is_request and f.h.code == 280 for f in s.out):
+            raise sk.HarnessError("set-up: no DWR was sent")
+        nw.world.points_on = True
+        ch.window = True
+        sc.apply(("m", 0, "dwa"))
+        ch.window = False
+        nw.world.points_on = False
+        for m in mons:
+            vs += m.step()
+        for _ in range(2):
+            sc.apply(("tick", 1))
+            for m in mons:
+                vs += m.step()
+        conn = nw.conn_of(s.fs)
+        if s.fs.closed:
+            vs.append(("watchdog:closed-although-the-DWA-arrived-in-time", f"DWR then DWA 1 s later, dwa timeout 3: socket closed, reason {nw.peers[0].disconnect_reason}"))
+        obs = (tuple(sorted(set(k for k, d in vs))), s.fs.closed, conn.state if conn else None, tuple(nw.thread_failures()))
+        return (obs, tuple(vs)), ch
+    finally:
+        sc.close()
+
+
+def sched_check(obs_vs):
+    obs, vs = obs_vs
+    return [(k + ":under-some-schedule", d) for k, d in vs]
+
+
 def run(tier):
     rep = Report("C11", tier, "model_checking")
     common.pool()
+    import functools
+    from .. import scheddfs
+    bound = 2 if tier == "thorough" else 1
+    r = scheddfs.explore(functools.partial(sched_execute, "dwa-vs-timer"), sched_check, bound)
+    for (key, detail), choices in r["violations"]:
+        rep.add(Violation(key, f"[DWA handling vs timer check, bound {bound}] choices {choices}: {detail}", {"sched": "dwa", "choices": choices}))
+    rep.sample({"schedule_exploration": "DWA arriving while the connection awaits it: reader thread vs I/O thread timer check at line granularity",
+                "preemption_bound": bound, "executions": r["executions"], "distinct_outcomes": len(r["outcomes"]), "branching_points": r["max_points"]})
+    rep.cov["schedules"] = r["executions"]
     ms = models(tier)
     depth = 26 if tier == "thorough" else 16
     maxdev = 3 if tier == "thorough" else 2
